@@ -6,10 +6,19 @@ measure this gives: the serve future resolves.
 -/
 namespace Shutdown
 
-/-- No running handler is waiting for a release from the outside. -/
+/-- No running handler is waiting for something from the outside: neither for a release by the
+scenario, nor (in its last phase) for the rest of its caller's request stream. -/
 def Unblocked (s : State) : Prop :=
   ∀ cn ∈ s.conns, cn.closed = false → ∀ k ∈ cn.calls, k.started = true → k.cancelled = false →
-    k.todo ≠ [] → 0 < k.permits ∨ s.freeRun = true
+    k.todo ≠ [] → (0 < k.permits ∨ s.freeRun = true) ∧ k.reqReady = true
+
+/-- Every caller that is still there has sent its complete request (always true of unary and
+server-streaming calls). -/
+def RequestsDone (s : State) : Prop :=
+  ∀ cn ∈ s.conns, ∀ k ∈ cn.calls, k.cancelled = false → k.reqLeft = 0
+
+theorem reqReady_of_reqLeft {k : Call} (h : k.reqLeft = 0) : k.reqReady = true := by
+  simp [Call.reqReady, h]
 
 /-- The signal has fired, or the incoming stream has ended, or the accept loop is already over. -/
 def ShutdownRequested (s : State) : Prop :=
@@ -90,13 +99,13 @@ theorem conn_progress {s : State} {c : Nat} {cn : Conn} (hc : s.conns[c]? = some
                   · simp [heq] at h
                 have hne : k.todo ≠ [] := by
                   intro h0; simp [h0] at htodo
-                have hperm := hub cn hcm hcl k hkm hst hcan hne
+                obtain ⟨hperm, hrr⟩ := hub cn hcm hcl k hkm hst hcan hne
                 refine ⟨.produce c j, rfl, ?_⟩
                 simp only [step]
                 refine updCall_isSome hc hj ?_
                 rcases hperm with hp | hp
-                · simp [hcl, hst, hcan, hp, htodo]
-                · simp [hcl, hst, hcan, hp, htodo]
+                · simp [hcl, hst, hcan, hp, htodo, hrr]
+                · simp [hcl, hst, hcan, hp, htodo, hrr]
 
 theorem progress {s : State} (hg : Good s) (hgr : s.cfgGraceful = true)
     (hreq : ShutdownRequested s) (hub : Unblocked s) (hres : s.resolved = false) :
@@ -246,19 +255,76 @@ theorem unblocked_of_allClosed {s : State} (hg : Good s) (ha : AllClosed s) : Un
 /-- decidable form of `Unblocked` -/
 def unblockedB (s : State) : Bool :=
   s.conns.all fun cn => cn.closed || cn.calls.all fun k =>
-    !k.started || k.cancelled || k.todo.isEmpty || decide (0 < k.permits) || s.freeRun
+    !k.started || k.cancelled || k.todo.isEmpty
+      || ((decide (0 < k.permits) || s.freeRun) && k.reqReady)
 
 theorem unblocked_of_bool {s : State} (h : unblockedB s = true) : Unblocked s := by
   intro cn hcn hcl k hk hst hcan hne
   simp only [unblockedB, List.all_eq_true, Bool.or_eq_true, Bool.not_eq_true',
-    decide_eq_true_eq, List.isEmpty_iff] at h
+    decide_eq_true_eq, List.isEmpty_iff, Bool.and_eq_true] at h
   rcases h cn hcn with h1 | h1
   · simp [hcl] at h1
-  · rcases h1 k hk with (((h2 | h2) | h2) | h2) | h2
+  · rcases h1 k hk with ((h2 | h2) | h2) | h2
     · simp [hst] at h2
     · simp [hcan] at h2
     · exact absurd h2 hne
-    · exact Or.inl h2
-    · exact Or.inr h2
+    · exact h2
+
+/-- the server's own steps never touch the request side of a call -/
+theorem requestsDone_step {s s' : State} {l : Label} (hd : RequestsDone s) (hi : l.internal = true)
+    (h : step s l = some s') : RequestsDone s' := by
+  have viaConn : ∀ {c : Nat} {g : Conn → Bool} {f : Conn → Conn},
+      updConn s c g f = some s' → (∀ x, (f x).calls = x.calls) → RequestsDone s' := by
+    intro c g f hu hf
+    obtain ⟨cn, hc, _, rfl⟩ := updConn_some hu
+    intro x hx
+    rcases mem_set hx with rfl | hx
+    · rw [hf]; exact hd cn (mem_of_getElem? hc)
+    · exact hd x hx
+  have viaCall : ∀ {c j : Nat} {g : Conn → Call → Bool} {f : Call → Call},
+      updCall s c j g f = some s' →
+      (∀ x, (f x).cancelled = x.cancelled ∧ (f x).reqLeft = x.reqLeft) → RequestsDone s' := by
+    intro c j g f hu hf
+    obtain ⟨cn, k, hc, hk, _, rfl⟩ := updCall_some hu
+    intro x hx
+    rcases mem_set hx with rfl | hx
+    · intro y hy
+      rcases mem_set hy with rfl | hy
+      · intro hcan
+        rw [(hf k).2]
+        exact hd cn (mem_of_getElem? hc) k (mem_of_getElem? hk) ((hf k).1 ▸ hcan)
+      · exact hd cn (mem_of_getElem? hc) y hy
+    · exact hd x hx
+  cases l <;> simp only [Label.internal] at hi <;> try (exact absurd hi (by decide))
+  case loopSig | loopErr | loopEnd | afterLoop =>
+    simp only [step] at h
+    split at h
+    · cases h; exact hd
+    · cases h
+  case loopAccept c =>
+    simp only [step] at h
+    split at h
+    · exact viaConn h (fun _ => rfl)
+    · cases h
+  case resolve =>
+    simp only [step] at h
+    split at h
+    · cases h
+      intro x hx
+      obtain ⟨cn, hcn, rfl⟩ := List.mem_map.1 hx
+      exact hd cn hcn
+    · cases h
+  case connSig c => exact viaConn h (fun _ => rfl)
+  case connAge c => exact viaConn h (fun _ => rfl)
+  case connBreak c => exact viaConn h (fun _ => rfl)
+  case connDropWatcher c => exact viaConn h (fun _ => rfl)
+  case hsDone c => exact viaConn h (fun _ => rfl)
+  case final c => exact viaConn h (fun _ => rfl)
+  case callStart c j => exact viaCall h (fun _ => ⟨rfl, rfl⟩)
+  case produce c j =>
+    refine viaCall h (fun x => ?_)
+    unfold Call.produce
+    split <;> exact ⟨rfl, rfl⟩
+  case deliver c j => exact viaCall h (fun _ => ⟨rfl, rfl⟩)
 
 end Shutdown
